@@ -469,6 +469,14 @@ theorem round_evict_sound (cfg : Cfg) (st : St) (r : RoundIn) (e : Ev)
         refine ⟨t, ht.1, ?_, Or.inl ht.2⟩
         intro heq; rw [heq, hs1.2] at ht; cases ht.2
 
+theorem balancePods_availChain (nodeFit prod : Bool) (order : Nat → List Nat) (src : List Node)
+    (tg : List Tgt) (avail : Vec) :
+    AvailChain avail (balancePods false nodeFit prod order tg avail src).evs := by
+  unfold balancePods
+  split
+  · trivial
+  · exact (balanceLoop_availChain _ _ _ _ _ _).1
+
 /-- the headroom every call of a round sees is exact: the Σ (high − usage) of the underused
     nodes of the pass (`targetAvail`, node pass: low + both-low nodes; prod pass: prod-low nodes
     plus the both-low share that the node pass left) minus everything moved earlier in the pass. -/
@@ -482,15 +490,7 @@ theorem round_headroom_exact (nodeFit : Bool) (dims : Nat) (podOrd : Nat → Lis
           (vmin (targetAvail false (List.replicate dims 0) both)
             (evictFromSources false nodeFit dims podOrd src low psrc plow both).1.avail)))
       (evictFromSources false nodeFit dims podOrd src low psrc plow both).2.evs := by
-  unfold evictFromSources balancePods
-  simp only
-  constructor
-  · split
-    · trivial
-    · exact (balanceLoop_availChain _ _ _ _ _ _).1
-  · split
-    · trivial
-    · exact (balanceLoop_availChain _ _ _ _ _ _).1
+  exact ⟨balancePods_availChain _ _ _ _ _ _, balancePods_availChain _ _ _ _ _ _⟩
 
 theorem get?_set_ne (ds : Dets) (k n : Nat) (d : Det) (h : k ≠ n) :
     Dets.get? (Dets.set ds k d) n = Dets.get? ds n := by
